@@ -13,7 +13,7 @@ from . import build, core, corpus
 from . import pymodel as M
 
 RULE = ("environment = TZDIR {unset, empty, valid dir, nonexistent, a file} x TZ {unset, empty, X, :X, localtime, :localtime, ::X, "
-        "invalid, absolute path, fixed name, UTC} x LOCALTIME {unset, valid, invalid}; in each child 31 names are loaded "
+        "invalid, absolute path, fixed name, UTC} x LOCALTIME {unset, valid, invalid}; in each child 34 names are loaded "
         "(relative, nested, absolute, file:-relative, file:-absolute, empty, directory, truncated, leap-second file, garbage, "
         "':'-prefixed, with '..', UTC, UTC0, fixed, zero fixed, unreadable as uid nobody) plus local_time_zone() and a "
         "default-constructed zone; expected outcome from the model, data identity by comparing the zone digest with that of the "
@@ -143,6 +143,12 @@ def run(prop, tier, seed, replay=None):
     ny = open(os.path.join(tzdir, "America/New_York"), "rb").read()
     with open(os.path.join(tzdir, "Trunc"), "wb") as f:
         f.write(ny[:len(ny) // 2])
+    with open(os.path.join(tzdir, "TruncNoNL"), "wb") as f:  # footer complete except for its closing newline
+        f.write(ny[:-1])
+    with open(os.path.join(tzdir, "TruncFooter"), "wb") as f:  # ends right after the footer's opening newline
+        f.write(ny[:ny.rindex(b"\n", 0, len(ny) - 1) + 1])
+    with open(os.path.join(tzdir, "TruncMidFooter"), "wb") as f:
+        f.write(ny[:-6])
     with open(os.path.join(tzdir, "Leap"), "wb") as f:
         f.write(leap_file(ny))
     with open(os.path.join(tzdir, "Leap64"), "wb") as f:  # leap records only in the 64-bit block (zic -b slim -L)
@@ -165,7 +171,7 @@ def run(prop, tier, seed, replay=None):
     for d, _, fs in os.walk(tzdir):
         os.chmod(d, 0o755)
     abs_ny = os.path.join(tzdir, "America/New_York")
-    names = ["America/New_York", "Europe/Dublin", "America/Argentina/Ushuaia", abs_ny, "file:America/New_York", "file:" + abs_ny, "", "Dir", "Trunc",
+    names = ["America/New_York", "Europe/Dublin", "America/Argentina/Ushuaia", abs_ny, "file:America/New_York", "file:" + abs_ny, "", "Dir", "Trunc", "TruncNoNL", "TruncFooter", "TruncMidFooter",
              "Leap", "Leap64", "Garbage", "Empty", ":America/New_York", ":Colon", "America/../Europe/Dublin", "UTC", "UTC0", "Fixed/UTC+01:00:00",
              "Fixed/UTC-23:59:59", "Fixed/UTC+00:00:00", "Fixed/UTC+24:00:01", "No/Such/Zone", "file:", "file:/nonexistent/x", "localtime", "Etc/UTC",
              "Secret", "america/new_york", "America/New_York/", os.path.join(tzdir, "Asia/Kolkata")]
